@@ -43,7 +43,7 @@ func init() {
 	}
 	register(&PropSpec{
 		ID: "C17",
-		Explanation: "Decides, for all paths: the RP callback handler calls CodeExchange, the application callback and the error handler only after tryReadStateCookie succeeded; with a cookie handler that requires CheckQueryCookie(r, \"state\"), which requires an authentic cookie of that very name (securecookie.Decode with the same name) whose value equals r.FormValue(\"state\"); the code verifier passed to the token request is the value of the authentic pkce cookie; GenerateAndStoreCodeChallenge stores and hashes the same verifier; WithCodeChallenge sets method S256; AuthURLHandler puts the same state into cookie and URL and AuthURL delegates to OAuthConfig().AuthCodeURL(state, ...). Does not decide securecookie's MAC nor browser behaviour.",
+		Explanation: "Decides, for all paths: the RP callback handler calls CodeExchange, the application callback and the error handler only after tryReadStateCookie succeeded; with a cookie handler that requires CheckQueryCookie(r, \"state\"), which requires an authentic cookie of that very name (securecookie.Decode with the same name) whose value equals r.FormValue(\"state\"); the code verifier passed to the token request is the value of the authentic pkce cookie; GenerateAndStoreCodeChallenge stores and hashes the same verifier; WithCodeChallenge sets method S256; AuthURLHandler puts the same state into cookie and URL and AuthURL delegates to OAuthConfig().AuthCodeURL(state, ...). Does not decide securecookie's MAC nor browser behaviour. Round 3: the cookie codec is built from the caller's keys themselves.",
 		RuleText:    "obligation = (rule, function, sink site); non-trivial when guard facts were needed",
 		Assumptions: []string{"securecookie authenticates name and value", "oauth2.Config.AuthCodeURL emits client id, redirect URI, scopes and state"},
 		Trusted:     []string{"go/types, go/cfg (x/tools v0.50.0)", "gorilla/securecookie", "golang.org/x/oauth2"},
